@@ -250,7 +250,55 @@ class TriangularNC(nn.Module):
         return torch.stack([y1, y2], dim=1)
 
 
-FAMILIES = {"reducible": Reducible, "linear_commuting": LinearCommuting, "scaled_additive": ScaledAdditive,
+class AdditiveNL(nn.Module):
+    """Additive noise with a drift that is NON-linear in the state: dY_i = k_i sin(Y_i + c t) dt + sum_j G_ij(t) dW_j,
+    G(t) = C (1 + 0.3 sin(om t)). No closed form; the reference is the order-1.5 strong Taylor scheme written out by hand
+    (needs W and the space-time integral U of the same Brownian object) at a step far below the ladder."""
+
+    def __init__(self, spec, batch):
+        super().__init__()
+        self.spec = spec
+        self.noise_type, self.sde_type = spec["noise_type"], spec["sde_type"]
+        d, m = spec["d"], spec["m"]
+        gen = torch.Generator().manual_seed(spec["seed"])
+        self.k = nn.Parameter(torch.tensor(spec["k"][:d], dtype=torch.float64))
+        self.C = nn.Parameter(torch.randn(d, m, generator=gen, dtype=torch.float64) * 0.6 + 0.3)
+        self.c, self.om = float(spec["c"]), float(spec["om"])
+
+    def _s(self, t):
+        return 1 + 0.3 * math.sin(self.om * float(t))
+
+    def f(self, t, y):
+        return self.k * torch.sin(y + self.c * t)
+
+    def g(self, t, y):
+        G = self.C * (1 + 0.3 * torch.sin(self.om * torch.as_tensor(t, dtype=torch.float64)))
+        return G.unsqueeze(0).expand(y.size(0), -1, -1)
+
+    def y0(self, batch, seed):
+        gen = torch.Generator().manual_seed(seed)
+        return torch.randn(batch, self.spec["d"], generator=gen, dtype=torch.float64)
+
+    def exact_riemann(self, y0, t0, t1, bm, delta):
+        n = max(1, int(round((t1 - t0) / delta)))
+        h = (t1 - t0) / n
+        y = y0.clone()
+        k, C, c, om = self.k.detach(), self.C.detach(), self.c, self.om
+        gg = (C * C).sum(1)                                   # diag of C C^T
+        for i in range(n):
+            ta = t0 + i * h
+            tb = t0 + (i + 1) * h if i < n - 1 else t1
+            W, U = bm(ta, tb, return_U=True)
+            s, ds = 1 + 0.3 * math.sin(om * ta), 0.3 * om * math.cos(om * ta)
+            arg = y + c * ta
+            f, fy, fyy, ft = k * torch.sin(arg), k * torch.cos(arg), -k * torch.sin(arg), k * c * torch.cos(arg)
+            GW, GU = (W @ C.t()) * s, (U @ C.t()) * s
+            y = y + f * h + GW + fy * GU + 0.5 * h * h * (ft + fy * f + 0.5 * fyy * gg * s * s) \
+                + ds * ((W @ C.t()) * h - (U @ C.t()))
+        return y
+
+
+FAMILIES = {"additive_nl": AdditiveNL, "reducible": Reducible, "linear_commuting": LinearCommuting, "scaled_additive": ScaledAdditive,
             "triangular_nc": TriangularNC}
 
 
@@ -270,7 +318,7 @@ def closed_specs(draw, sde_type, noise_type, per_row=False, allow_nc=True):
     elif noise_type == "scalar":
         fam = draw(st.sampled_from(["reducible", "linear_commuting", "linear_commuting"]))
     elif noise_type == "additive":
-        fam = "scaled_additive"
+        fam = draw(st.sampled_from(["scaled_additive", "scaled_additive", "additive_nl"]))
     else:
         fams = ["linear_commuting", "linear_commuting", "scaled_additive"] + (["triangular_nc"] if allow_nc else [])
         fam = draw(st.sampled_from(fams))
@@ -287,6 +335,10 @@ def closed_specs(draw, sde_type, noise_type, per_row=False, allow_nc=True):
         spec.update({"d": d, "m": m, "alpha": [draw(_coef(-0.6, 0.3)), draw(_coef(-0.8, 0.8))],
                      "beta": [[draw(_coef(-0.5, 0.5)), draw(st.one_of(_coef(0.3, 0.9), _coef(-0.9, -0.3)))]
                               for _ in range(3)]})
+    elif fam == "additive_nl":
+        spec.update({"d": draw(st.integers(1, 2)), "m": draw(st.integers(1, 3)),
+                     "k": draw(st.lists(st.one_of(_coef(0.8, 2.0), _coef(-2.0, -0.8)), min_size=2, max_size=2)),
+                     "om": draw(st.sampled_from([0.0, 1.0, 3.0]))})
     elif fam == "scaled_additive":
         d = draw(st.integers(1, 3))
         m = d if noise_type == "diagonal" else draw(st.integers(1, 3))
